@@ -11,9 +11,10 @@ import OFV.Spec.C05
 import OFV.Proofs.C05Term
 import OFV.Proofs.C05Maj
 import OFV.Proofs.C05Srl
+import OFV.Proofs.C05TreeLadder
 
 namespace OFV.C05
-open OFV OFV.Spec OFV.Model OFV.Model.C05 OFV.Sem OFV.BK
+open OFV OFV.Spec OFV.Model OFV.Model.C05 OFV.Sem OFV.BK OFV.BKT
 
 /-- the bit tricks: `index & -index` is the largest power of two dividing `index` (the Spec's
 arithmetic `lowbit`), and `(k + 1) & k` is the start of the block stored on qubit `k`. -/
@@ -138,6 +139,64 @@ the two empty lists it would return if no branch fired. -/
 theorem srl_cases_exhaustive (i j n : Nat) (coef : GQ) (hj : j < n) : (srl i j coef n).1 ≤ 10 :=
   srlTag_le i j n hj
 
+/-! ### `bravyi_kitaev_tree` (FenwickTree built by recursive bisection), every `n` -/
+
+/-- **`FenwickTree.get_update_set` is correct for every `n`**: the ancestors of `j` in the tree built by the
+recursion `fenwick(left, right, parent)` are exactly the qubits `k`, `j < k < n`, whose block
+`[loTree n k, k]` (the Spec's bisection) contains `j`. -/
+theorem tree_update_set_correct (n j k : Nat) (hj : j < n) :
+    k ∈ treeUpdate (mkTree n) n j ↔ (j < k ∧ k < n ∧ Spec.C05.loTree n k ≤ j) :=
+  (ancestors_mem n j (by omega) n j hj (by omega) (loTree_le n j hj) (Nat.le_refl _)).1 k
+
+/-- **`FenwickTree.get_parity_set` / `get_remainder_set` / children are correct**: on every encoded state the
+bits over the parity set have the parity of the modes below `j`, and the bits over the remainder set
+together with bit `j` have the parity of the modes up to and including `j`. -/
+theorem tree_parity_sets_correct (n s j : Nat) (hj : j < n) :
+    ((treeParity (mkTree n) n j).countP fun k => (Spec.C05.enc .tree n s).testBit k) % 2 = countBelow s j % 2 ∧
+    (((treeRemainder (mkTree n) n j).countP fun k => (Spec.C05.enc .tree n s).testBit k)
+      + (if (Spec.C05.enc .tree n s).testBit j then 1 else 0)) % 2
+      = (countBelow s j + (if s.testBit j then 1 else 0)) % 2 :=
+  tree_parities n s j hj
+
+theorem tree_enc_injective (n s s' : Nat) (h : Spec.C05.enc .tree n s = Spec.C05.enc .tree n s') : s = s' :=
+  enc_injective_tree n s s' h
+
+/-- **`bravyi_kitaev_tree` of a term is exact**, for every `n` (not only powers of two):
+`⟨enc s'| bk_tree(c·t) |enc s⟩ = ⟨s'| c·t |s⟩` with `enc` the bisection encoding. -/
+theorem tree_term_exact (tol : Rat) (htol : tol * tol ≤ 1 / 4) (n : Nat) (t : List (Nat × Nat))
+    (ht : ∀ f ∈ t, f.1 < n ∧ f.2 ≤ 1) (c : GQ) (s s' : Nat) :
+    GV.coeff (applyOp .qubit (bkTreeTerm tol (mkTree n) n t c) [Spec.C05.enc .tree n s]) [Spec.C05.enc .tree n s']
+      = GV.coeff (applyOp .fermion [(t, c)] [s]) [s'] := by
+  change den .qubit _ _ _ = den .fermion _ _ _
+  rw [bkTreeTerm_den tol htol n t ht, den_cons, den_nil, add_zero, termCoef_fermion]
+  cases actFTerm t s with
+  | none => simp
+  | some km =>
+    obtain ⟨k, s''⟩ := km
+    simp only
+    by_cases h : s'' = s'
+    · subst h; simp
+    · have : ¬ Spec.C05.enc .tree n s'' = Spec.C05.enc .tree n s' := fun he => h (enc_injective_tree n _ _ he)
+      simp [h, this]
+
+/-- **`bravyi_kitaev_tree(FermionOperator, n)` is exact** on every exact run, every `n` -/
+theorem tree_exact (tol : Rat) (htol : tol * tol ≤ 1 / 4) (n : Nat) (A : Model.Op)
+    (hA : ∀ tc ∈ A, ∀ f ∈ tc.1, f.1 < n ∧ f.2 ≤ 1) (hok : bkTreeFermionOk tol n A = true) (s s' : Nat) :
+    GV.coeff (applyOp .qubit (bkTreeFermion tol n A) [Spec.C05.enc .tree n s]) [Spec.C05.enc .tree n s']
+      = GV.coeff (applyOp .fermion A [s]) [s'] := by
+  change den .qubit _ _ _ = den .fermion _ _ _
+  have e : bkTreeFermion tol n A
+      = (A.map fun tc => bkTreeTerm tol (mkTree n) n tc.1 tc.2).foldl (fun acc img => iadd tol acc img) [] := by
+    unfold bkTreeFermion; simp only []; rw [List.foldl_map]
+  rw [e, den_sum_ok .qubit tol _ _ _ hok, den_eq_sum, List.map_map]
+  congr 1
+  apply List.map_congr_left
+  intro tc htc
+  have := tree_term_exact tol htol n tc.1 (hA tc htc) tc.2 s s'
+  change den .qubit _ _ _ = den .fermion _ _ _ at this
+  simp only [Function.comp]
+  rw [this, den_cons, den_nil, add_zero]
+
 /-! ### non-vacuity -/
 
 example : Generated.eqTolerance * Generated.eqTolerance ≤ 1 / 4 := by
@@ -156,5 +215,20 @@ example : (((List.range 16).flatMap (fun i => (List.range 16).map fun j => srlTa
   decide +kernel
 
 example : ∀ m ∈ [11, 0, 3, 11, 4], m / 2 < 6 := by decide
+
+/-- the exact-regime hypothesis of `tree_exact` on a concrete operator, `n = 6` (tree ≠ Fenwick there) -/
+example : bkTreeFermionOk Generated.eqTolerance 6
+    [([(4, 1), (1, 0)], ⟨2, 0⟩), ([(1, 0), (4, 1)], ⟨-(mkRat 1 2), 0⟩), ([(5, 1)], ⟨0, 1⟩)] = true := by
+  decide +kernel
+
+/-! ### statements of C05 that are NOT proved here (covered by correspondence + Spec oracle only; see
+`OPEN_STATEMENTS` in harness/c05.py)
+
+* `srl_sound` (open): for `i, j < n`, `⟨enc s'| srlOp i j c n |enc s⟩ = ⟨s'| c a†_i a_j |s⟩` (cases 1-10 of
+  `_seeley_richard_love`; only the exhaustiveness of the case split, `srl_cases_exhaustive`, is proved).
+* `bk_interaction_sound` (open): `bkInteractionOp N n …` denotes the tensor formula under `enc .bk n`, for all
+  `n ≥ N` (would follow from `srl_sound` and the product/sum lemmas used for `bk_exact`).
+* CAR, diagonal number operators, vacuum, isospectrality with Jordan-Wigner as separate statements (they follow
+  from `bk_term_exact` / `tree_term_exact`, the injectivity of `enc`, `enc 0 = 0`, and the Spec's CAR lemmas). -/
 
 end OFV.C05
